@@ -1,0 +1,15 @@
+//go:build verif
+
+package loader
+
+// Hooks for property C19 (add-only, compiled with -tags verif only).
+
+// VerifWarnObsoleteVersion runs the critical section of the obsolete-version warning for one file.
+func VerifWarnObsoleteVersion(file string) { (&Options{}).warnObsoleteVersion(file) }
+
+// VerifVersionWarnings returns a copy of the package-level list of warned files, read under its mutex.
+func VerifVersionWarnings() []string {
+	versionWarningMu.Lock()
+	defer versionWarningMu.Unlock()
+	return append([]string(nil), versionWarning...)
+}
